@@ -123,6 +123,22 @@ JoinOK(in, o) ==
     /\ \A i \in DOMAIN in.vals : o.getw[i] = LowLimbs(in.vals[i], in.w)
 TraceJoin == IsEvent("join") /\ JoinOK(Ev.in, Ev.out)
 
+\* Join of `count` values v_i = i % 65521 (a pattern instead of a list, so that 2^31 bits can be joined):
+\* the number of words, Getw at the sampled indexes and the word holding each sampled element
+JoinBigOK(in, o) ==
+    LET w == in.w  per == W \div w
+        val(i) == i % 65521
+        lim(i) == <<0, 0, 0, val(i)>> IN
+    /\ w \in {16, 32, 64}
+    /\ o.nw = (in.count \div per) + (IF in.count % per = 0 THEN 0 ELSE 1)
+    /\ \A j \in DOMAIN in.idxs :
+          LET i == in.idxs[j]  k == i \div per                       \* word k holds elements k*per .. k*per + per - 1
+          IN /\ i >= 0 /\ i < in.count
+             /\ o.getw[j] = LowLimbs(lim(i), w)
+             /\ ToSet(o.words[j]) = {(e - k * per) * w + b : e \in {x \in (k * per)..(k * per + per - 1) : x < in.count}, b \in 0..15}
+                                     \cap {p \in 0..(W - 1) : LET e == k * per + p \div w IN e < in.count /\ BitOfLimbs(lim(e), p % w) = 1}
+TraceJoinBig == IsEvent("joinbig") /\ JoinBigOK(Ev.in, Ev.out)
+
 SliceOK(in, o) ==
     /\ InOK(in.bm)
     /\ 0 <= in.from /\ in.from <= in.to /\ in.to <= W * in.bm.nw
@@ -161,6 +177,6 @@ TraceFmt == IsEvent("fmt") /\ FmtOK(Ev.in, Ev.out)
 
 TraceInit == l = 1
 TraceNext == TraceMasks \/ TraceRank \/ TraceRankL \/ TraceSelect \/ TraceSelectL \/ TraceScan \/ TraceOf \/ TraceOfMany
-             \/ TraceToArray \/ TraceJoin \/ TraceSlice \/ TraceSelSingle \/ TraceSelU64 \/ TraceFmt
+             \/ TraceToArray \/ TraceJoin \/ TraceJoinBig \/ TraceSlice \/ TraceSelSingle \/ TraceSelU64 \/ TraceFmt
 TraceSpec == TraceInit /\ [][TraceNext]_l
 ============================================================================
